@@ -99,6 +99,8 @@ package arg
 //@   ensures no_error_on_well_typed_input: len(input) == 1 ==> result1 == nil
 
 // ---- the Expr interface: what every implementation promises (behavioural subtyping) -----------------------------------
+// expr_accepts(e, v): the answer of expression e for the single argument v (a pure predicate: evaluation has no side effects)
+//@ uninterp func expr_accepts(e Expr, v reflect.Value) bool
 //@ extern func (github.com/tencent/goom/arg.Expr).Eval
 //@   assigns nothing
-//@   ensures one_input_no_error: len(input) == 1 ==> result1 == nil
+//@   ensures one_input_no_error: len(input) == 1 ==> result1 == nil && result0 == expr_accepts(self, input[0])
